@@ -1,7 +1,7 @@
 (* C15: the check's boolean predicate P_b, evaluated on the OBSERVED outputs, implies the
    declarative property of Properties/C15.v (same window, same message characterisation). *)
 From Verif Require Import Lib.Base Model.C15_Sync Proofs.C15 Proofs.C15_Fire Check.C15.
-From Coq Require Import ZifyBool ZifyN ZifyNat.
+From Coq Require Import ZifyBool ZifyN ZifyNat Permutation.
 Local Open Scope N_scope.
 
 (* -------------------------------------------------------------------------------------------- *)
@@ -154,6 +154,9 @@ Qed.
 Lemma inbN_In : forall x l, inb N.eqb x l = true <-> In x l.
 Proof. intros. apply (inb_In N.eqb N.eqb_eq). Qed.
 
+Lemma inbN_false : forall x l, inb N.eqb x l = false <-> ~ In x l.
+Proof. intros x l. rewrite <- inbN_In. destruct (inb N.eqb x l); split; congruence. Qed.
+
 Lemma nodupN_In : forall l x, In x (nodupN l) <-> In x l.
 Proof.
   induction l as [|y l IH]; intros x; cbn; [tauto|].
@@ -177,6 +180,68 @@ Lemma has_duty_ready : forall i ds v, si_duties i = Some ds -> (has_duty i v <->
 Proof.
   intros i ds v H. unfold has_duty. rewrite H. split; [intros (ds' & Heq & Hin); injection Heq as <-; exact Hin | eauto].
 Qed.
+
+Lemma contrib_eqb_spec : forall a b, contrib_eqb a b = true <-> a = b.
+Proof.
+  intros [a1 a2 a3 a4 a5 a6] [b1 b2 b3 b4 b5 b6]. unfold contrib_eqb. cbn.
+  rewrite !andb_true_iff, !N.eqb_eq, !sg_eqb_spec. split.
+  - intros [[[[[-> ->] ->] ->] ->] ->]. reflexivity.
+  - intros H. injection H as -> -> -> -> -> ->. auto 10.
+Qed.
+
+Lemma pairN_eqb_spec' : forall x y : N * N, pairN_eqb x y = true <-> x = y.
+Proof. apply pairN_eqb_spec. Qed.
+
+(* -------------------------------------------------------------------------------------------- *)
+(* the check's helper functions are the model's *)
+
+Lemma positions_of_last_duty : forall ds v, positions_of ds v = last_duty ds v.
+Proof. induction ds as [|d ds IH]; intros v; cbn; [reflexivity|]. rewrite IH. reflexivity. Qed.
+
+Lemma hash_of_lookup3 : forall t x, hash_of t x = lookup3 t (fst x) (snd x).
+Proof.
+  induction t as [|[[v c] h] t IH]; intros x; cbn; [reflexivity|]. rewrite IH.
+  rewrite (N.eqb_sym v), (N.eqb_sym c). reflexivity.
+Qed.
+
+Lemma spec_selected_selected : forall p f x, spec_selected p f x = selected p f x.
+Proof. intros. unfold spec_selected, selected, is_aggregator, modulo. rewrite hash_of_lookup3. reflexivity. Qed.
+
+Lemma held_has_account : forall i v, held i v = has_account i v.
+Proof. reflexivity. Qed.
+
+Lemma signers_spec : forall i ds v, si_duties i = Some ds ->
+  (In v (signers (members i) (has_account i)) <-> In v (spec_signers i ds)).
+Proof.
+  intros i ds v H. rewrite signers_In, spec_signers_In, members_keys, has_account_spec.
+  unfold holds_account. rewrite H. split.
+  - intros ((ds' & Heq & Hin) & Ha). injection Heq as <-. auto.
+  - intros (Hin & Ha). eauto.
+Qed.
+
+Lemma pairs_spec : forall p i ds x, si_duties i = Some ds ->
+  (In x (sel_pairs p (members i) (has_account i)) <-> In x (spec_pairs p i ds)).
+Proof.
+  intros p i ds x H. rewrite sel_pairs_In. unfold spec_pairs. rewrite in_flat_map. split.
+  - intros ([v ps] & pos & Hm & Ha & Hp & ->). cbn [fst snd] in *.
+    exists v. split.
+    + apply (signers_spec i ds v H). apply signers_In. split; [apply (in_map fst) in Hm; exact Hm | exact Ha].
+    + unfold members in Hm. rewrite H in Hm. apply message_indices_In in Hm.
+      rewrite positions_of_last_duty, Hm. apply in_map_iff. exists pos. auto.
+  - intros (v & Hv & Hin). apply (signers_spec i ds v H), signers_In in Hv. destruct Hv as (_ & Ha).
+    rewrite positions_of_last_duty in Hin. destruct (last_duty ds v) as [ps|] eqn:E; [|destruct Hin].
+    apply in_map_iff in Hin. destruct Hin as (pos & <- & Hp).
+    exists (v, ps), pos. cbn [fst snd]. repeat split; auto.
+    unfold members. rewrite H. apply message_indices_In. exact E.
+Qed.
+
+Lemma nil_iff : forall (A : Type) (l l' : list A), (forall x, In x l <-> In x l') -> (l = [] <-> l' = []).
+Proof.
+  intros A l l' H. split; intros ->.
+  - destruct l' as [|y l']; [reflexivity|]. destruct (proj2 (H y)); left; reflexivity.
+  - destruct l as [|y l]; [reflexivity|]. destruct (proj1 (H y)); left; reflexivity.
+Qed.
+
 
 (* The observed payload of a fired window slot passes the check only if it is what theorem
    C15_message_every_slot says: sound always, complete unless a signer fails for the whole batch. *)
@@ -220,6 +285,84 @@ Proof.
     assert (Hsf : (match spec_pairs p i ds with [] => false | _ => f_sel_err f end) = false)
       by (rewrite Hse; destruct (spec_pairs p i ds); reflexivity).
     rewrite Hsf in Hjob. apply (option_eqb_spec Z.eqb Z.eqb_eq) in Hjob. exact Hjob.
+Qed.
+
+Lemma spec_aggs_In : forall p i ds f x, si_duties i = Some ds ->
+  (In x (filter (spec_selected p f) (spec_pairs p i ds)) <-> In x (aggregators p (members i) (has_account i) f)).
+Proof.
+  intros p i ds f x H. rewrite filter_In, aggregators_In, spec_selected_selected, (pairs_spec p i ds x H). tauto.
+Qed.
+
+(* ... and the observed selection-signer call, root-signer call, aggregation job and contributions
+   are those of theorems C15_subcommittee_and_selection_spec / C15_contribution_sound /
+   C15_contribution_complete ([aggregators] is characterised there by the specification's rule). *)
+Lemma contrib_check_sound : forall p i f o r,
+  chain_ok p -> spec_fire_ok p i f o = true ->
+  ready p i -> in_window p i (f_slot f) -> f_root f = Some r ->
+  let aggs := aggregators p (members i) (has_account i) f in
+  (forall x, In x (opt_list (o_sel_call o)) <-> In x (sel_pairs p (members i) (has_account i)))
+  /\ (forall c, In c (opt_list (o_contribs o)) ->
+       In (cp_agg c, cp_subc c) aggs /\ c = mk_contrib f r (cp_agg c, cp_subc c))
+  /\ NoDup (map (fun c => (cp_agg c, cp_subc c)) (opt_list (o_contribs o)))
+  /\ (f_sel_err f = false -> f_root_err f = false -> f_submit_err f = false ->
+      (exists v, has_duty i v /\ holds_account i v /\ ~ In v (f_root_zero f)) ->
+      (aggs = [] -> o_agg_job o = None)
+      /\ (aggs <> [] -> o_agg_job o = Some (aggregate_time p (f_slot f))
+          /\ (f_cp_err f = false -> (forall x, In x aggs -> ~ In (snd x) (f_contrib_err f)) ->
+              forall x, In x aggs -> In (mk_contrib f r x) (opt_list (o_contribs o)))))
+  /\ (forall accts e rr, o_root_call o = Some (accts, e, rr) ->
+        e = f_slot f / spe p /\ rr = r
+        /\ forall a, In a accts -> exists v, a = Some v /\ has_duty i v /\ holds_account i v).
+Proof.
+  intros p i f o r Hok H Hrd (Hw & Hn) Hroot aggs. unfold spec_fire_ok in H.
+  apply sched_ready_spec in Hrd. destruct Hrd as ((ds & Hds) & Hfork). rewrite Hds in H.
+  pose proof (sched_ready_duties i ds Hds) as Hduties.
+  assert (Hin : inb N.eqb (f_slot f) (spec_slots p (si_epoch i) (si_cur i) (si_notcur i)) = true).
+  { apply inbN_In. apply (spec_slots_In p _ _ _ _ Hok). auto. }
+  rewrite Hin in H. cbn [negb] in H. rewrite Hroot in H. cbv zeta in H.
+  apply andb_true_iff in H as [HAB HX]. apply andb_true_iff in HAB as [Hsel _].
+  apply andb_true_iff in HX as [HX Hrc]. apply andb_true_iff in HX as [_ Hagg].
+  apply andb_true_iff in Hagg as [Hagg Hrest]. apply andb_true_iff in Hagg as [Hsub Hnd].
+  pose proof (fun x => spec_aggs_In p i ds f x Hduties) as Haggs. fold aggs in Haggs.
+  split; [|split; [|split; [|split]]].
+  - intros x. rewrite (pairs_spec p i ds x Hduties).
+    destruct (o_sel_call o) as [l|]; cbn [opt_list].
+    + exact (proj1 (set_eqb_spec pairN_eqb pairN_eqb_spec' _ _) Hsel x).
+    + destruct (spec_pairs p i ds); [tauto | discriminate].
+  - intros c Hc. apply (subsetb_incl contrib_eqb contrib_eqb_spec) in Hsub. apply Hsub in Hc.
+    apply in_map_iff in Hc. destruct Hc as ([v sc] & <- & Hx). apply Haggs in Hx. cbn [cp_agg cp_subc fst snd].
+    split; [exact Hx | reflexivity].
+  - apply (nodupb_NoDup pairN_eqb pairN_eqb_spec') in Hnd. exact Hnd.
+  - intros Hse Hre Hsb (v & Hd & Ha & Hz).
+    assert (Hsf : (match spec_pairs p i ds with [] => false | _ => f_sel_err f end) = false)
+      by (rewrite Hse; destruct (spec_pairs p i ds); reflexivity).
+    rewrite Hsf, Hre, Hsb in Hrest. cbn [orb] in Hrest.
+    assert (Hwm : In (f_slot f, r, v, SgRoot v (f_slot f / spe p) r)
+                     (map (fun v0 => (f_slot f, r, v0, SgRoot v0 (f_slot f / spe p) r))
+                          (filter (fun v0 => negb (inb N.eqb v0 (f_root_zero f))) (spec_signers i ds)))).
+    { apply in_map_iff. exists v. split; [reflexivity|]. apply filter_In. split.
+      - apply spec_signers_In. rewrite <- (has_duty_ready i ds v Hduties). auto.
+      - destruct (inb N.eqb v (f_root_zero f)) eqn:E; [apply inbN_In in E; contradiction | reflexivity]. }
+    destruct (map _ (filter _ (spec_signers i ds))) as [|m0 ms0]; [destruct Hwm|].
+    pose proof (nil_iff _ _ _ Haggs) as Hnil.
+    destruct (filter (spec_selected p f) (spec_pairs p i ds)) as [|a0 l0] eqn:Ef.
+    + destruct Hnil as [Hnil _]. specialize (Hnil eq_refl). split.
+      * intros _. destruct (o_agg_job o); [discriminate | reflexivity].
+      * intros Hne. congruence.
+    + split; [intros He; destruct Hnil as [_ Hnil]; specialize (Hnil He); discriminate|].
+      intros _. apply andb_true_iff in Hrest as [Hjob Hcomp].
+      apply (option_eqb_spec Z.eqb Z.eqb_eq) in Hjob. split; [exact Hjob|].
+      intros Hcp Hfetch x Hx. rewrite Hcp in Hcomp. cbn [orb] in Hcomp.
+      assert (Hex : existsb (fun x0 : N * N => inb N.eqb (snd x0) (f_contrib_err f)) (a0 :: l0) = false).
+      { apply existsb_false. intros y Hy. apply inbN_false. apply Hfetch, Haggs, Hy. }
+      rewrite Hex in Hcomp. apply (subsetb_incl contrib_eqb contrib_eqb_spec) in Hcomp. apply Hcomp.
+      apply in_map_iff. exists x. split; [destruct x; reflexivity | apply Haggs, Hx].
+  - intros accts e rr Ho. rewrite Ho in Hrc.
+    apply andb_true_iff in Hrc as [Hrc Hall]. apply andb_true_iff in Hrc as [He Hr'].
+    apply N.eqb_eq in He, Hr'. split; [exact He|]. split; [exact Hr'|].
+    intros a Ha. rewrite forallb_forall in Hall. specialize (Hall a Ha). destruct a as [v|]; [|discriminate].
+    exists v. split; [reflexivity|]. apply inbN_In, spec_signers_In in Hall.
+    rewrite (has_duty_ready i ds v Hduties). exact Hall.
 Qed.
 
 (* outside the window the check accepts no message *)
@@ -276,4 +419,73 @@ Proof.
   - intros k f o Hkf Hko Hrd. pose proof (fires_ok_nth p i _ _ k f o Hf Hkf Hko) as Hfo. split.
     + intros Hn. exact (fire_check_outside p i f o Hok Hfo Hrd Hn).
     + intros Hw r Hr. exact (fire_check_sound p i f o r Hok Hfo Hrd Hw Hr).
+Qed.
+
+Theorem P_b_sound_contributions : forall c,
+  P_b c = true -> chain_ok (c_par c) ->
+  let p := c_par c in let i := c_in c in
+  forall k f o r, nth_error (c_fires c) k = Some f -> nth_error (c_fouts c) k = Some o ->
+    ready p i -> in_window p i (f_slot f) -> f_root f = Some r ->
+    let aggs := aggregators p (members i) (has_account i) f in
+    (forall x, In x (opt_list (o_sel_call o)) <-> In x (sel_pairs p (members i) (has_account i)))
+    /\ (forall c, In c (opt_list (o_contribs o)) ->
+         In (cp_agg c, cp_subc c) aggs /\ c = mk_contrib f r (cp_agg c, cp_subc c))
+    /\ NoDup (map (fun c => (cp_agg c, cp_subc c)) (opt_list (o_contribs o)))
+    /\ (f_sel_err f = false -> f_root_err f = false -> f_submit_err f = false ->
+        (exists v, has_duty i v /\ holds_account i v /\ ~ In v (f_root_zero f)) ->
+        (aggs = [] -> o_agg_job o = None)
+        /\ (aggs <> [] -> o_agg_job o = Some (aggregate_time p (f_slot f))
+            /\ (f_cp_err f = false -> (forall x, In x aggs -> ~ In (snd x) (f_contrib_err f)) ->
+                forall x, In x aggs -> In (mk_contrib f r x) (opt_list (o_contribs o)))))
+    /\ (forall accts e rr, o_root_call o = Some (accts, e, rr) ->
+          e = f_slot f / spe p /\ rr = r
+          /\ forall a, In a accts -> exists v, a = Some v /\ has_duty i v /\ holds_account i v).
+Proof.
+  intros c H Hok p i k f o r Hkf Hko Hrd Hw Hr. unfold P_b in H. apply andb_true_iff in H as [H _].
+  apply andb_true_iff in H as [_ Hf]. fold p i in Hf.
+  pose proof (fires_ok_nth p i _ _ k f o Hf Hkf Hko) as Hfo.
+  exact (contrib_check_sound p i f o r Hok Hfo Hrd Hw Hr).
+Qed.
+
+(* Aggregate called on its own: the observed contributions are those of the aggregators that have
+   an account, each once, all of them unless the node or the contribution signer fails. *)
+Lemma agg_check_sound : forall a o,
+  spec_agg_ok a o = true ->
+  (forall c, In c (opt_list o) ->
+     exists r, agg_root a = Some r /\ In (cp_agg c, cp_subc c) (agg_items a) /\ c = agg_contrib a r (cp_agg c, cp_subc c))
+  /\ NoDup (map (fun c => (cp_agg c, cp_subc c)) (opt_list o))
+  /\ (forall r, agg_root a = Some r -> a_cp_err a = false ->
+      (forall x, In x (agg_items a) -> ~ In (snd x) (a_contrib_err a)) ->
+      forall x, In x (agg_items a) -> In (agg_contrib a r x) (opt_list o)).
+Proof.
+  intros a o H. unfold spec_agg_ok in H. fold (agg_root a) in H.
+  destruct (agg_root a) as [r|].
+  - cbv zeta in H.
+    change (flat_map (fun m : N * list N => if inb N.eqb (fst m) (a_accts a) then map (fun c : N => (fst m, c)) (snd m) else [])
+                     (a_aggs a)) with (agg_items a) in H.
+    apply andb_true_iff in H as [H Hcomp]. apply andb_true_iff in H as [Hsub Hnd].
+    split; [|split].
+    + intros c Hc. apply (subsetb_incl contrib_eqb contrib_eqb_spec) in Hsub. apply Hsub in Hc.
+      apply in_map_iff in Hc. destruct Hc as ([v sc] & <- & Hx). exists r. cbn [cp_agg cp_subc fst snd]. auto.
+    + apply (nodupb_NoDup pairN_eqb pairN_eqb_spec') in Hnd. exact Hnd.
+    + intros r' Hr' Hcp Hfetch x Hx. injection Hr' as <-. rewrite Hcp in Hcomp. cbn [orb] in Hcomp.
+      assert (Hex : existsb (fun x0 : N * N => inb N.eqb (snd x0) (a_contrib_err a)) (agg_items a) = false).
+      { apply existsb_false. intros y Hy. apply inbN_false. apply Hfetch, Hy. }
+      rewrite Hex in Hcomp. apply (subsetb_incl contrib_eqb contrib_eqb_spec) in Hcomp. apply Hcomp.
+      apply in_map_iff. exists x. split; [destruct x; reflexivity | exact Hx].
+  - destruct (opt_list o) eqn:E; [|discriminate]. split; [intros c []|]. split; [constructor|].
+    intros r Hr. discriminate.
+Qed.
+
+Theorem P_b_sound_aggregate : forall c a o,
+  P_b c = true -> c_agg c = Some (a, o) ->
+  (forall c, In c (opt_list o) ->
+     exists r, agg_root a = Some r /\ In (cp_agg c, cp_subc c) (agg_items a) /\ c = agg_contrib a r (cp_agg c, cp_subc c))
+  /\ NoDup (map (fun c => (cp_agg c, cp_subc c)) (opt_list o))
+  /\ (forall r, agg_root a = Some r -> a_cp_err a = false ->
+      (forall x, In x (agg_items a) -> ~ In (snd x) (a_contrib_err a)) ->
+      forall x, In x (agg_items a) -> In (agg_contrib a r x) (opt_list o)).
+Proof.
+  intros c a o H Hg. unfold P_b in H. apply andb_true_iff in H as [_ H]. rewrite Hg in H.
+  exact (agg_check_sound a o H).
 Qed.
